@@ -499,7 +499,7 @@ def _collect_edges(facts, body, tags, sv, bool_pos, tr):
                 elif not any(goods):
                     tr.failure.add((i, t['else']))
                 else:
-                    raise Unrecognised(f"switch else-arm mixes success and failure variants of {adt} in {body.fn} bb{i}")
+                    pass  # mixed else-arm: belongs to neither set
     both = tr.success & tr.failure
     if both:
         raise Unrecognised(f"success and failure edge coincide in {body.fn}: {both}")
